@@ -37,14 +37,18 @@ PROPS["C03"] = dict(
 PROPS["C16"] = dict(
     prefixes=["c16_", "c03_ref_", "c03_sse2_", "c03_t_ref_", "c03_t_sse2_"],
     level="model_checking",
-    bounds="ChaCha: all keys/nonces/states at full width, SSE2 engine vs portable engine compiled side by side",
-    outside="SSE4.1/AVX SHA-256 and AVX/AVX2 BLAKE2 code paths: Kani ignores -C target-feature, so those modules cannot be compiled for CBMC",
+    bounds="ChaCha: all keys/nonces/states at full width, SSE2 engine vs portable engine compiled side by side; SHA-256: batching glue of avx::digest_block and "
+           "sse41::digest_block for every block count 0..=20 (8-way batches, 4-way batches, scalar tail) with the kernels recorded",
+    outside="the SIMD KERNELS themselves (SHA-256 message_schedule_*ways / compress_*ways, BLAKE2 AVX/AVX2 compressions): CBMC cannot execute AVX/SSE4.1 intrinsics and "
+            "Kani ignores -C target-feature; only the native twin of the batching harness runs the real vector code (this host has AVX2) when replaying a counterexample",
     assumptions=["stub: _mm_add_epi32 -> lane-wise wrapping add"],
     trusted=[],
     explanation="differential harnesses SSE2 vs portable ChaCha engine; both also against the specification",
     level_text="ChaCha SSE2 engine == portable engine on init (six key/nonce shapes), double round on arbitrary state, add_back, increment, increment64, "
-               "set_counter, output_bytes, output_ad_bytes: decided by CBMC for all inputs.",
-    level_note="SHA-256 SSE4.1/AVX and BLAKE2 AVX/AVX2 paths are OUTSIDE the claim (cannot be compiled under Kani: target-feature flags are ignored).",
+               "set_counter, output_bytes, output_ad_bytes: decided by CBMC for all inputs. SHA-256 AVX and SSE4.1 digest_block: batch partition of the input "
+               "(8-way, 4-way, scalar tail) for every number of blocks up to 20.",
+    level_note="Vector kernels (SHA-256 schedules/compressions, BLAKE2 AVX/AVX2) are OUTSIDE the claim; the SHA-256 batching logic around them (which block goes to which "
+               "kernel, every block exactly once, in order) is decided for 0..=20 blocks with avx.rs/sse41.rs mounted by the overlay.",
 )
 
 PROPS["C04"] = dict(
